@@ -142,8 +142,17 @@ check("C15", "model_checking",
       "real scheduling samples interleavings; a target is 'mixed' when its URL/method/headers/body do not agree on one input id",
       "TLA+ linearization model (TLC exhaustive) + TLC trace validation of concurrent runs, Go race detector", "DESIGN.md section 8 (C15)")
 
+check("C18", "model_checking",
+      "Dial.tla models the cache entry as a shared sequence, a dial as load / shuffle / in-place compaction to one address per family, and the "
+      "ConnectTo counter; TLC explores 2 dialers x 3 dials over a 2+1 address set: the entry stays intact, each attempt dials one resolved address "
+      "per family, rotation is even; the historic aliasing and a non-atomic counter are shown to fail. The real option stack (recording DialContext "
+      "at the bottom, DNSCaching / ConnectTo on top, in-process DNS server as net.DefaultResolver) performs 600 sequential and 800 concurrent hits per "
+      "address set, rotation runs incl. interleaved mapped keys, and all option orders concurrently; TLC validates every dial; -race reports count.",
+      "statistical clause sized for < 1e-12 false alarms; dials are recorded and refused (no connection); clauses on address choice only for the documented option order",
+      "TLA+ shared-slice model (TLC exhaustive) + TLC trace validation of recorded dials, Go race detector", "DESIGN.md section 8 (C18)")
+
 UNDER = "check under construction in this round (specification and driver not committed yet)"
-for p in ["C18"]:
+for p in []:
     NA[p] = UNDER
 NA["C16"] = ("arbitrary-byte crash/hang freedom of parsers has no abstract state machine to specify; deciding it means fuzzing, "
              "a different technique (DESIGN.md section 9)")
